@@ -44,9 +44,11 @@ def build_model(case, rng):
                 x = x * np.exp(2j * np.pi * rng.random(size=shape))
             return x
         t = rnd((L, L)); v = rnd((L, L, L, L))
+        # the flag in its legal truthy forms: Python bool, NumPy bool (e.g. the result of np.any), integer
+        flag = [True, np.True_, 1][case['seed'] % 3]
         if m == 'molecular':
-            return ptn.molecular_hamiltonian_mpo(t, v, optimize=True)
-        return ptn.spin_molecular_hamiltonian_mpo(t, v, optimize=True)
+            return ptn.molecular_hamiltonian_mpo(t, v, optimize=flag)
+        return ptn.spin_molecular_hamiltonian_mpo(t, v, optimize=flag)
     raise ValueError(m)
 
 
